@@ -230,9 +230,31 @@ impl Group for Dispatch {
             format!("c19.dispatch {}", hex(b"  ping   a  'b c' ")),
             format!("c19.dispatch {}", hex(b"'pi'ng x")),
         ];
+        // long requests with multi-byte characters at every alignment: unknown commands and pings of 40-200 bytes
+        for shift in 0..5 {
+            for ch in ["é", "漢", "🦀"] {
+                for cmd in ["xnosuchcommand", "ping"] {
+                    let mut m = format!("{cmd} \"{}", "a".repeat(shift));
+                    for _ in 0..40 { m.push_str(ch); }
+                    m.push('"');
+                    v.push(format!("c19.dispatch {}", hex(m.as_bytes())));
+                }
+            }
+        }
         let n = if ctx.mode == Mode::Quick { 250 } else { 4000 };
         for _ in 0..n {
-            match rng.below(8) {
+            match rng.below(9) {
+                8 => {
+                    // a long request over a unicode alphabet, unknown command or ping
+                    let cmd = if rng.chance(1, 2) { "xlong" } else { "ping" };
+                    let mut m = String::from(cmd);
+                    for _ in 0..rng.range(1, 4) {
+                        let a: String = (0..rng.range(5, 40)).map(|_| *rng.pick(&['a', 'é', 'ü', '漢', '🦀', ' ', 'z', 'ß'])).collect();
+                        m.push(' ');
+                        kvarn_utils::encode_quoted_str(&a, &mut m);
+                    }
+                    v.push(format!("c19.dispatch {}", hex(m.as_bytes())));
+                }
                 0 => {
                     let mut b = gen_string(rng, 8).into_bytes();
                     b.push(0xff);
